@@ -687,6 +687,8 @@ type c16Gen struct {
 	iterOf   map[int]int
 	ver      map[int]int
 	iterSeen map[int]int
+	// kind `numsort`: every value drawn is a number (g.numVal)
+	numOnly bool
 }
 
 // an operand and the container a builtin made from it, both kept live: the next steps mutate
@@ -695,7 +697,41 @@ type c16Probe struct {
 	operand, result, stage int
 }
 
+// numbers of every magnitude, in clusters of NEIGHBOURS around the points where float64 stops
+// telling ints apart (2^53, 2^54, 2^60, 2^62, MaxInt64, MinInt64): kind `numsort` sorts lists
+// of them. Floats stay half-integers of small magnitude (exactly modelled), bytes are bytes.
+var c16NumClusters = []struct {
+	base int64
+	offs []int64
+}{
+	{1 << 53, []int64{-2, -1, 0, 1, 2, 3, 4}},
+	{-(1 << 53), []int64{2, 1, 0, -1, -2, -3, -4}},
+	{math.MaxInt64, []int64{0, -1, -2, -3, -511, -512, -513, -1023, -1024}},
+	{math.MinInt64, []int64{0, 1, 2, 3, 512, 513, 1024, 1025}},
+	{1 << 62, []int64{-2, -1, 0, 1, 2, 255, 256, 257}},
+	{1 << 60, []int64{-1, 0, 1, 63, 64, 65, 127, 128, 129}},
+	{1 << 54, []int64{-3, -2, -1, 0, 1, 2, 3, 5, 6}},
+	{-(1 << 62), []int64{1, 0, -1, -255, -256, -257}},
+}
+
+func (g *c16Gen) numVal() string {
+	r := g.rng.Intn(100)
+	switch {
+	case r < 60:
+		c := c16NumClusters[g.rng.Intn(len(c16NumClusters))]
+		return c16_iTok(c.base + Pick(g.rng, c.offs))
+	case r < 80:
+		return c16_iTok(int64(g.rng.Intn(9) - 3))
+	case r < 90:
+		return Pick(g.rng, []string{"y0", "y1", "y2", "y3", "y255"})
+	}
+	return Pick(g.rng, []string{"d0", "d2", "d4", "d3", "d-2", "d1", "d510", "d-7", "d2199023255552"})
+}
+
 func (g *c16Gen) val() string {
+	if g.numOnly {
+		return g.numVal()
+	}
 	if g.rng.Chance(14) {
 		return Pick(g.rng, c16NumVals)
 	}
@@ -805,7 +841,7 @@ func c16_isBytes(o object.Object) bool { _, ok := o.(*object.ByteSlice); return 
 
 // valOrRef: a value to store into container `into`; sometimes a reference to a (leaf) list/map
 func (g *c16Gen) valOrRef(into int) string {
-	if g.leaf[into] || !g.rng.Chance(12) {
+	if g.numOnly || g.leaf[into] || !g.rng.Chance(12) {
 		return g.val()
 	}
 	cands := g.handles(func(o object.Object) bool {
@@ -861,7 +897,66 @@ func (g *c16Gen) optIndex(n int) string {
 	return g.index(n, true)
 }
 
+// c16_numItems: all items are numbers the model represents exactly (ints of any magnitude,
+// bytes, half-integer floats of small magnitude). They are mutually comparable and ordered by
+// value, so every stable sort of them has the same result at any length.
+func c16_numItems(items []object.Object) bool {
+	for _, it := range items {
+		switch v := it.(type) {
+		case *object.Int, *object.Byte:
+		case *object.Float:
+			if strings.HasPrefix(c16_fTok(v.Value()), "?") || math.Abs(v.Value()) > 1<<41 {
+				return false
+			}
+		default:
+			return false
+		}
+	}
+	return true
+}
+
+// c16_sortClass: what a sort of these numbers has to tell apart
+func c16_sortClass(items []object.Object) string {
+	type seen struct {
+		v   int64
+		pos int
+	}
+	groups := map[float64][]seen{}
+	big := false
+	for i, it := range items {
+		if n, ok := it.(*object.Int); ok && (n.Value() > 1<<53 || n.Value() < -(1<<53)) {
+			big = true
+			groups[float64(n.Value())] = append(groups[float64(n.Value())], seen{n.Value(), i})
+		}
+	}
+	collide, desc := false, false
+	for _, g := range groups {
+		for i := range g {
+			for j := i + 1; j < len(g); j++ {
+				if g[i].v != g[j].v {
+					collide = true
+					if g[i].v > g[j].v {
+						desc = true
+					}
+				}
+			}
+		}
+	}
+	switch {
+	case desc:
+		return "distinct-ints-with-one-float64-value/out-of-order-in-the-input"
+	case collide:
+		return "distinct-ints-with-one-float64-value/in-order-in-the-input"
+	case big:
+		return "ints-beyond-2^53/no-two-share-a-float64-value"
+	}
+	return "numbers-within-float64-exact-range"
+}
+
 func c16_regularForSort(l *object.List) bool {
+	if c16_numItems(l.Value()) {
+		return true
+	}
 	var t object.Type
 	for i, it := range l.Value() {
 		switch it.(type) {
@@ -993,6 +1088,10 @@ func (g *c16Gen) builtinOp(r int) (c16Op, bool) {
 	var menu []c16_wop
 	switch o.(type) {
 	case *object.List:
+		if g.numOnly {
+			menu = []c16_wop{{8, "sortedby"}, {8, "xsorted"}, {2, "xreversed"}, {2, "tolist"}, {2, "toset"}, {2, "lfilter"}, {1, "lchunk"}}
+			break
+		}
 		menu = []c16_wop{{12, "sortedby"}, {3, "xsorted"}, {3, "xreversed"}, {3, "tolist"}, {2, "toset"}, {1, "keysof"}, {3, "lfilter"}, {1, "leach"}, {2, "leachacc"}, {3, "lchunk"}}
 	case *object.Map:
 		menu = []c16_wop{{6, "sortedby"}, {2, "xsorted"}, {2, "tolist"}, {2, "toset"}, {2, "keysof"}, {3, "mitems"}}
@@ -1050,6 +1149,11 @@ var c16ListOps = []c16_wop{{8, "lget"}, {6, "lslice"}, {7, "lset"}, {4, "laddass
 	{6, "lremove"}, {4, "lextend"}, {4, "lreverse"}, {4, "lsort"}, {4, "lcopy"}, {1, "lclear"}, {3, "lindex"}, {2, "lcount"},
 	{2, "lcontains"}, {2, "llen"}, {4, "ldel"}, {2, "lconcat"}, {2, "lsorted"}, {2, "lreversed"}, {1, "lkeys"}, {2, "lmap"}, {1, "lmapacc"}, {2, "inew"}, {2, "lfor"}}
 
+// kind `numsort`: lists of numbers of every magnitude that are sorted again and again between
+// the operations that put further numbers into them
+var c16NumSortOps = []c16_wop{{9, "lsort"}, {6, "lsorted"}, {7, "lappend"}, {5, "linsert"}, {5, "lset"}, {3, "lpop"}, {3, "lreverse"},
+	{2, "lextend"}, {2, "lconcat"}, {2, "lindex"}, {1, "lcount"}, {2, "lremove"}, {2, "lget"}, {2, "lslice"}, {1, "lcopy"}, {1, "ldel"}, {1, "lcontains"}}
+
 // kind `iter`: iterators and loops over lists that change meanwhile; the list operations in
 // between are mostly mutations
 var c16IterListOps = []c16_wop{{8, "lappend"}, {6, "lpop"}, {4, "lremove"}, {6, "lset"}, {5, "linsert"}, {1, "lclear"}, {4, "ldel"},
@@ -1098,6 +1202,10 @@ func (g *c16Gen) next(allowDefects bool, curStr *string) (c16Op, bool) {
 	iterChance, listOps := 25, c16ListOps
 	if kind == "iter" {
 		iterChance, listOps = 45, c16IterListOps
+		kind = "list"
+	}
+	if kind == "numsort" {
+		builtinChance, listOps = 22, c16NumSortOps
 		kind = "list"
 	}
 	if kind == "mixed" {
@@ -1441,7 +1549,27 @@ func (g *c16Gen) initObjects() []string {
 		}
 		return "B:" + hex.EncodeToString(b)
 	}
+	mkNumList := func() string {
+		n := 2 + g.rng.Intn(9)
+		if g.rng.Chance(12) {
+			n = 21 + g.rng.Intn(12) // beyond sort.SliceStable's insertion-sort blocks
+		}
+		vs := make([]string, n)
+		for i := range vs {
+			vs[i] = g.numVal()
+		}
+		if g.rng.Chance(30) { // one cluster only: many items differ in their last bits
+			c := c16NumClusters[g.rng.Intn(len(c16NumClusters))]
+			for i := range vs {
+				vs[i] = c16_iTok(c.base + Pick(g.rng, c.offs))
+			}
+		}
+		return "L:" + strings.Join(vs, ",")
+	}
 	switch g.kind {
+	case "numsort":
+		add(mkNumList())
+		add(mkNumList())
 	case "list":
 		add(mkList())
 		add(mkList())
@@ -1522,6 +1650,41 @@ type c16Case struct {
 	goRes   []string
 	goState []string
 	nontriv bool
+	// sorts of numbers performed by the real code: (step, items before, items after)
+	sortChecks []c16SortCheck
+}
+
+type c16SortCheck struct {
+	step          int
+	before, after string
+}
+
+func c16_renderItems(items []object.Object) string {
+	parts := make([]string, len(items))
+	for i, it := range items {
+		parts[i] = c16Render(it, 0)
+	}
+	return strings.Join(parts, ",")
+}
+
+// the items a one-argument sort (l.sort(), l.sorted(), sorted(x)) is about to sort, when they
+// are all numbers
+func (w *c16World) sortOperand(o c16Op) ([]object.Object, bool) {
+	if o.name != "lsort" && o.name != "lsorted" && o.name != "xsorted" {
+		return nil, false
+	}
+	k, err := strconv.Atoi(o.args[0])
+	if err != nil || k < 0 || k >= len(w.objs) {
+		return nil, false
+	}
+	if (o.name == "lsort" || o.name == "lsorted") && !c16_isList(w.objs[k]) {
+		return nil, false
+	}
+	items := c16_sortItems(w.objs[k])
+	if len(items) == 0 || !c16_numItems(items) {
+		return nil, false
+	}
+	return append([]object.Object(nil), items...), true
 }
 
 // oracle tag -> id of the known finding. C16-list-map-shared-index (tag `map`) was repaired
@@ -1612,7 +1775,7 @@ func c16SameForSpec(goRes, specRes string) bool {
 
 func c16RunCase(e *Env, rng *RNG, kind, mode string, maxLen int, allowDefects bool, fixed *c16Case) *c16Case {
 	w := &c16World{ctx: context.Background()}
-	g := &c16Gen{rng: rng, w: w, kind: kind, leaf: map[int]bool{}, e: e, iterOf: map[int]int{}, ver: map[int]int{}, iterSeen: map[int]int{}}
+	g := &c16Gen{rng: rng, w: w, kind: kind, leaf: map[int]bool{}, e: e, iterOf: map[int]int{}, ver: map[int]int{}, iterSeen: map[int]int{}, numOnly: kind == "numsort"}
 	c := &c16Case{mode: mode}
 	var specs []string
 	if fixed != nil {
@@ -1645,6 +1808,7 @@ func c16RunCase(e *Env, rng *RNG, kind, mode string, maxLen int, allowDefects bo
 		}
 		var res string
 		nBefore := len(w.objs)
+		sortIn, sortNums := w.sortOperand(o)
 		useScript := mode == "script" || c16ScriptOnly[o.name] || (mode == "both" && rng.Bool())
 		if useScript {
 			res = w.execScript(o)
@@ -1652,6 +1816,24 @@ func c16RunCase(e *Env, rng *RNG, kind, mode string, maxLen int, allowDefects bo
 		} else {
 			res = w.execAPI(o)
 			e.R.H("exec", "api")
+		}
+		if sortNums {
+			// Spec on the real result: is what the real code left behind the reference sort?
+			var after []object.Object
+			switch {
+			case o.name == "lsort" && res == "unit":
+				k, _ := strconv.Atoi(o.args[0])
+				after = w.objs[k].(*object.List).Value()
+			case o.name != "lsort" && res == "new":
+				if l, ok := w.objs[len(w.objs)-1].(*object.List); ok {
+					after = l.Value()
+				}
+			}
+			if after != nil {
+				c.sortChecks = append(c.sortChecks, c16SortCheck{len(c.ops), c16_renderItems(sortIn), c16_renderItems(after)})
+				e.R.H("sort_of_numbers", c16_sortClass(sortIn))
+				e.R.H("sort_of_numbers_len", fmt.Sprintf("%02d-%02d", len(sortIn)/10*10, len(sortIn)/10*10+9))
+			}
 		}
 		if fixed == nil {
 			nObj := len(w.objs)
@@ -1730,6 +1912,8 @@ func c16_runC16(e *Env) {
 		"and `for i, x := range l` / `for x in l` loops whose body changes l: grows it up to a bound, pops, removes the current item, clears, assigns the next item, inserts at the front), run on the real objects through the object API or through single-statement scripts on the real VM; " +
 		"indices drawn from [-len-2, len+2] plus extremes and wrongly typed ones; values from a C15-style pool plus floats that are half-integers of small magnitude and bytes (2 == 2.0 == byte(2)); the needles of index/count/remove/in/filter are drawn from the list and re-typed to another numeric type half of the time; after EVERY step " +
 		"the result and the content of EVERY live container are compared with the Lean Impl model and the Lean Spec. " +
+		"kind `numsort`: lists of numbers of every magnitude -- ints drawn in clusters of neighbours around 2^53, 2^54, 2^60, 2^62, MaxInt64, MinInt64 (where float64 stops telling ints apart), small ints, bytes, small floats -- " +
+		"sorted again and again (l.sort(), l.sorted(), sorted(l), sorted(l, f)) between appends/inserts/assignments of further such numbers; every one-argument sort of numbers the real code performs is also judged against the reference reading Spec.isSortOf (ascending by exact value, stable, nothing lost). " +
 		"non-trivial: length >= 3 with >= 1 mutation and >= 1 boundary/negative/out-of-range index; distinct by (mode, initial objects, op list)"
 	nSeq := 12000
 	if !e.Quick {
@@ -1765,6 +1949,10 @@ func c16_runC16(e *Env) {
 		{"list", "L:i4,i8,i9", "laddassign,0,i1,d0;lindex,0,i8;lcount,0,y8;lremove,0,i8;llen,0;lpop,0,i-1;lget,0,i1"},
 		{"list", "L:y2,i2,d4,s61,d3", "lcount,0,i2;lcount,0,d4;lcount,0,y2;lindex,0,d4;lremove,0,d4;lremove,0,d4;lremove,0,d4;lremove,0,d4;lfilter,0,eq,i2;lindex,0,i1;lcontains,0,d3"},
 		{"list", "L:i3,d2,y2,d5,i0", "lsort,0;xsorted,0;toset,0;sortedby,0,gt,_;lindex,0,d6;lremove,0,y1;lget,0,i0"},
+		// sorting ints a float64 cannot tell apart (2^53+1 / 2^53, MaxInt64 / MaxInt64-1), alone and among floats and bytes
+		{"list", "L:i9007199254740993,i9007199254740992", "lsort,0;lget,0,i0"},
+		{"list", "L:i9223372036854775807,i9223372036854775806,i9223372036854775805", "lsorted,0;xsorted,0;sortedby,0,lt,_;lsort,0;lget,0,i0"},
+		{"list", "L:i-9007199254740993,d3,i-9007199254740992,y2,i9007199254740993,d4,i9007199254740992,i2", "xsorted,0;lsorted,0;lsort,0;lreverse,0;lsort,0"},
 		// iterate a list that changes meanwhile: the iterator is a cursor into the live list
 		{"list", "L:i1,i2,i3", "inew,0;inext,1;lappend,0,i4;inext,1;inext,1;inext,1;inext,1;lappend,0,i5;inext,1;irest,1"},
 		{"list", "L:i1,i2,i3", "inew,0;inext,1;lclear,0;inext,1;lappend,0,i7;lappend,0,i8;irest,1;inext,1"},
@@ -1787,6 +1975,32 @@ func c16_runC16(e *Env) {
 		for i, c := range cases {
 			c16Judge(e, c, reps[i])
 		}
+		// every sort of numbers the real code performed against the reference reading
+		// (Risor.C16.Spec.isSortOf: ascending by exact value, stable, nothing lost)
+		var sreqs []string
+		var sown []*c16Case
+		var sidx []int
+		for _, c := range cases {
+			for k, sc := range c.sortChecks {
+				sreqs = append(sreqs, "C16\tsortspec\t"+cleanField(sc.before)+"\t"+cleanField(sc.after))
+				sown = append(sown, c)
+				sidx = append(sidx, k)
+			}
+		}
+		if len(sreqs) > 0 {
+			sreps := e.O.AskBatch(sreqs)
+			for i, rep := range sreps {
+				c, sc := sown[i], sown[i].sortChecks[sidx[i]]
+				switch {
+				case rep == "ok\tsorted":
+				case strings.HasPrefix(rep, "ok\tnot-the-sort"):
+					e.R.Spec(c16Describe(c, sc.step), fmt.Sprintf("step %d (%s): the real code sorted the numbers [%s] into [%s], which is not their sort by value (%s)",
+						sc.step, c.ops[sc.step], sc.before, sc.after, strings.TrimPrefix(rep, "ok\tnot-the-sort;")), "")
+				default:
+					e.R.Mismatch(c16Describe(c, sc.step), sc.before+" -> "+sc.after, rep, "oracle rejected the sortspec request")
+				}
+			}
+		}
 		cases = cases[:0]
 	}
 	for _, d := range directed {
@@ -1796,7 +2010,7 @@ func c16_runC16(e *Env) {
 		}
 	}
 	flush()
-	kinds := []string{"list", "list", "list", "map", "map", "set", "bytes", "string", "mixed", "mixed", "builtins", "builtins", "builtins", "iter", "iter", "iter"}
+	kinds := []string{"list", "list", "list", "map", "map", "set", "bytes", "string", "mixed", "mixed", "builtins", "builtins", "builtins", "iter", "iter", "iter", "numsort", "numsort"}
 	for i := 0; i < nSeq; i++ {
 		rng := e.Rng.Fork()
 		kind := kinds[i%len(kinds)]
